@@ -18,7 +18,9 @@ def build(tier, repo):
             "rather than yielding None; (R4) attributes recomputed from each other in one block go through "
             "a temporary (no lost-update exchange); (R5) the convex and the concave side of every method are "
             "mirror-image code (cvx<->ccv, max<->min), which is what keeps the curvature bookkeeping "
-            "consistent."),
+            "consistent; (R7) negated terms change list; (R8) read-modify-write through an alias; (R9) every "
+            "argument filed into a max/min is tested for the matching curvature on its path; (R10) an in-place "
+            "operator replaces all components of self or none."),
         trusted_base=["CPython ast", "sa/effects.py (alias/effect analysis)", "sa/pyfront.py CFG"],
         assumptions=["cvxopt matrix operators/two-argument indexing return new objects (C15)"])
     w = World(repo, need_c=False)
@@ -45,4 +47,16 @@ def build(tier, repo):
     nn = mr.curvature_sign_rule(r7, w)
     chk.note_analysed("term_list_comprehensions", nn)
     r7.require(10)
+    r9 = chk.rule("C11-R9", "arguments filed into a max/min are tested for the matching curvature on every path",
+                  "combinations that are not convex or concave are refused; a function accepted as convex really is")
+    chk.note_analysed("flist_admissions", mr.curvature_admission_rule(r9, w))
+    r9.require(2)
+    r10 = chk.rule("C11-R10", "an in-place operator replaces all components of self or none",
+                   "the in-place forms evaluate to what the formula says (f *= 0 is the zero function)")
+    chk.note_analysed("inplace_return_paths", mr.partial_overwrite_rule(r10, w))
+    r10.require(4)
+    r11 = chk.rule("C11-R11", "the first entry of a constant term is consulted as a zero test only when the constant has length 1",
+                   "f.value() equals the formula: a vector constant whose first entry is 0 is not dropped")
+    chk.note_analysed("constant_sentinel_tests", mr.sentinel_length_rule(r11, w))
+    r11.require(4)
     return chk
